@@ -3,14 +3,16 @@
 (* from the real dispenso::OpResult<T> is one public operation                    *)
 (*   {"e":<action>,"c":[object, args...],"r":[returned values],                   *)
 (*    "s":{"a":{"st":..,"has":0|1,"val":id,"am":addr mod alignof(T),"own":n},     *)
-(*         "b":{...}},"live":n,"errs":n}                                          *)
+(*         "b":{...}},"live":n,"errs":n,"dead":n}                                 *)
 (* explained by the specification action of the same name with the same arguments. *)
 (* After the step, for every object that is not moved-from (R6): engagement and    *)
 (* value (of the DESTINATION), the contained object's alignment, the number of      *)
 (* live tracked objects inside the OpResult's bytes (own) = 1 iff engaged, 0 for a   *)
 (* destroyed OpResult; globally: returned values, no live object outside the        *)
 (* OpResults, no lifetime error (double destroy, construct over a live object, read  *)
-(* of a dead object); at the end (both destroyed) nothing is live.                  *)
+(* of a dead object), no contained object copied / moved / assigned FROM after its   *)
+(* lifetime ended (dead; value assignment whose argument aliases the contained       *)
+(* object); at the end (both destroyed) nothing is live.                            *)
 EXTENDS OpResult, Json, IOUtils
 
 TraceLog == ndJsonDeserialize(IOEnv.TRACE)
@@ -40,6 +42,8 @@ Dispatch(e, c) ==
     [] e = "AssignValue"   -> AssignValue(c)
     [] e = "Emplace"       -> Emplace(c)
     [] e = "SetValue"      -> SetValue(c)
+    [] e = "AssignValueCopy" -> AssignValueCopy(c)
+    [] e = "AssignValueOf" -> AssignValueOf(c)
     [] e = "HasValue"      -> HasValue(c)
     [] e = "Bool"          -> Bool(c)
     [] e = "Value"         -> Value(c)
@@ -58,6 +62,7 @@ GlobalOK(ev) ==
   LET movedOwn == (IF st'["a"] = "moved" THEN ev.s.a.own ELSE 0) +
                   (IF st'["b"] = "moved" THEN ev.s.b.own ELSE 0)
   IN /\ ev.errs = 0
+     /\ ev.dead = 0      \* no object was copied / moved / assigned from after its lifetime ended
      /\ ev.live = ev.s.a.own + ev.s.b.own              \* no live object outside the OpResults
      /\ ev.live - movedOwn = LiveIn(st', val')
 
@@ -68,7 +73,7 @@ TraceStep ==
           /\ ResetTo
        \/ /\ ev.e = "End"                              \* balanced: every constructed object destroyed
           /\ \A o \in Objs : st[o] = "none"
-          /\ ev.live = 0 /\ ev.errs = 0 /\ ev.ctors = ev.dtors
+          /\ ev.live = 0 /\ ev.errs = 0 /\ ev.dead = 0 /\ ev.ctors = ev.dtors
           /\ UNCHANGED vars
        \/ /\ ev.e \notin {"Reset", "End"}
           /\ Dispatch(ev.e, ev.c)
